@@ -254,7 +254,9 @@ def run_abandon(ctx, desc):
 def run(ctx, desc):
     if desc.get("abandon"):
         return run_abandon(ctx, desc)
-    rig = make_rig()
+    # every third history runs on a back end that hands all frames to Network.notify() in one reused buffer
+    rig = make_rig("notify-reuse" if desc["case_seed"] % 3 == 2 else "listener")
+    ctx.seen("backends", rig.station.via)
     for c in cases(desc):
         run_case(ctx, rig, c)
     ctx.count("server_frames_validated", rig.server.frames_seen)
@@ -262,9 +264,9 @@ def run(ctx, desc):
         ctx.seen("protocol_steps", s)
 
 
-def make_rig():
+def make_rig(via="listener"):
     od = gen.typed_od(rpdos=(), tpdos=())
-    return rigs.ClientRig(node_id=5, od=od)
+    return rigs.ClientRig(node_id=5, od=od, via=via)
 
 
 def run_case(ctx, rig, c):
